@@ -1,4 +1,5 @@
 import CKT.Props.C01Exact
+import CKT.Props.C01Seq
 import CKT.Props.C01Full
 import CKT.Props.C01C06
 import CKT.Props.C02
@@ -80,6 +81,49 @@ theorem supported_round_trip (lab : Nat → Nat) (S : Finset Nat) (gs : List SGa
     simp only [List.mem_map] at hg
     obtain ⟨s, hs, rfl⟩ := hg
     exact SGate.exact s (hok s hs)
+  · intro g hg
+    simp only [List.mem_map] at hg
+    obtain ⟨s, hs, rfl⟩ := hg
+    exact hloc s hs
+
+/-! ### the same with the maps as the operation sequences that get spliced in -/
+
+/-- the cut gate with its basis given as operation sequences (the lists `decompose_qpd_instructions` splices) -/
+noncomputable def cutSeqOf (ρ : Nat → ℝ) (target : Ops.Kraus Poly) (b : SBasis) (qa qb : Nat) : QGate ℝ :=
+  QGate.cut qa qb (tmOf2 ((fieldOps ℝ).ptm2 (evalKraus ρ target))) (evalSeqTerms ρ b)
+
+noncomputable def SGate.toQ : SGate → QGate ℝ
+  | .plain qs M => QGate.plain qs M
+  | .cut name ρ qa qb =>
+    match basisOf name with
+    | some (b, tg) => cutSeqOf ρ tg b qa qb
+    | none => QGate.plain [] (fun _ _ => 0)
+
+theorem SGate.exact_seq (g : SGate) (h : g.Ok) : g.toQ.toC.Exact := by
+  cases g with
+  | plain qs M => trivial
+  | cut name ρ qa qb =>
+    obtain ⟨hc, hs, hab⟩ := h
+    cases hb : basisOf name with
+    | none => simp [checkName, hb] at hc
+    | some bt =>
+      obtain ⟨b, tg⟩ := bt
+      have : (SGate.cut name ρ qa qb).toQ = cutSeqOf ρ tg b qa qb := by simp [SGate.toQ, hb]
+      rw [this]
+      exact exact_of_exactAt_seq ρ tg b (checkBasis_sound' ρ hs name b tg hb hc) qa qb hab
+
+/-- **C01 for the package's bases, with the spliced operation sequences**: every chosen map contributes, on each side, the
+sequence of one-qubit operations listed in `qpd/decompositions.py` (each with its transfer matrix from the channel model) -/
+theorem supported_round_trip_seq (lab : Nat → Nat) (S : Finset Nat) (gs : List SGate) (O : PStr)
+    (hok : ∀ g ∈ gs, g.Ok) (hloc : ∀ g ∈ gs, g.toQ.toC.Local lab S) (hO : ∀ n, lab n ∉ S → O n = 0) :
+    runOps ((gs.map SGate.toQ).map fun g => g.toC.op) init0 O =
+      ((C01.choices ((gs.map SGate.toQ).map QGate.slot)).map fun ch => choiceCoeff ch *
+        ∏ p ∈ S, runOps ((choiceOps ch).filter fun o => blockOf lab o == p) init0 (restr lab p O)).sum := by
+  apply cut_and_reconstruct_seq lab S _ O _ _ hO
+  · intro g hg
+    simp only [List.mem_map] at hg
+    obtain ⟨s, hs, rfl⟩ := hg
+    exact SGate.exact_seq s (hok s hs)
   · intro g hg
     simp only [List.mem_map] at hg
     obtain ⟨s, hs, rfl⟩ := hg
